@@ -51,6 +51,11 @@ _C01_REQ = ["blocks_phase0", "blocks_altair", "blocks_bellatrix", "blocks_capell
             "exits_initiated_in_block", "blocks_after_skipped_slots", "blocks_at_epoch_start_with_epoch_processing",
             "blocks_with_several_operation_kinds", "atts_previous_epoch", "atts_beyond_one_epoch_deneb",
             "blocks_with_blob_commitments", "fork_upgrades",
+            # every fork has its own AddValidator; payload fields that the cached header copies are distinct and non-zero
+            "new_validator_deposit_in_phase0", "new_validator_deposit_in_altair", "new_validator_deposit_in_bellatrix",
+            "new_validator_deposit_in_capella", "new_validator_deposit_in_deneb", "deneb_payload_blob_gas_fields_differ",
+            "payload_header_fields_distinct_nonzero_bellatrix", "payload_header_fields_distinct_nonzero_capella",
+            "payload_header_fields_distinct_nonzero_deneb",
             # interaction classes steered by the TLC-generated scenario scripts (spec/BeaconScenario.tla)
             "tlc_behaviours", "exit_queued_behind_earlier_exits", "slashed_while_exiting", "topup_of_exited_validator",
             "partial_withdrawal_after_bls_change", "full_withdrawal_after_bls_change",
@@ -272,7 +277,7 @@ def run_check(pid, tier, seed, replay=None, family="idle,chain,tlc"):
     findings = {f["signature"].split(":")[0]: f for f in lib.active_findings(pid)}
     for r in results:
         for m in r["mismatches"]:
-            if m["kind"] == kind:
+            if m["kind"] == kind or m["kind"] == "Crash":   # a panic inside zrnt on a valid history concerns both
                 violations.append((r["file"], m))
         for k in r["known"]:
             if k["kind"] == kind:
@@ -291,7 +296,7 @@ def run_check(pid, tier, seed, replay=None, family="idle,chain,tlc"):
         # nothing deviates anywhere, yet the model refuses blocks the harness built as valid
         raise lib.InfraError("the reference specification rejects block(s) the harness built as valid: %s - harness or "
                              "specification defect, no verdict" % rejected[:5])
-    other = sum(1 for r in results for m in r["mismatches"] if m["kind"] != kind)
+    other = sum(1 for r in results for m in r["mismatches"] if m["kind"] not in (kind, "Crash"))
     if other:
         lib.log("note: %d mismatch(es) on events judged by another property (not %s)" % (other, pid))
     accepted_files = [r for r in results if not any(m["kind"] == kind for m in r["mismatches"])]
@@ -333,8 +338,9 @@ def run_check(pid, tier, seed, replay=None, family="idle,chain,tlc"):
     for f, m in violations[:5]:
         rp = lib.save_replay(pid, "viol-%s-%d.ndjson" % (os.path.basename(f)[:-7], m["line"]),
                              ndjson_text(make_replay(f, m["line"])))
-        lib.report_violation(pid, rp, "%s line %d (%s event): zrnt's post-state differs from the specification in: %s"
-                             % (os.path.basename(f), m["line"], m["kind"], m["diff"]))
+        what = "zrnt panicked while the chain was produced / prepared:" if m["kind"] == "Crash" else \
+            "zrnt's post-state differs from the specification in:"
+        lib.report_violation(pid, rp, "%s line %d (%s event): %s %s" % (os.path.basename(f), m["line"], m["kind"], what, m["diff"]))
         rc = 1
     if not os.environ.get("VERIF_NO_EVIDENCE"):      # runs against mutated copies must not touch evidence/
         lib.write_evidence(pid, tier, seed, coverage, time.time() - t0, violations=len(violations),
